@@ -402,16 +402,21 @@ func ViaOf(caller string) string {
 		return "twice"
 	case "cN":
 		return "nested"
+	case SeqCaller:
+		return "seq"
 	}
 	return "direct"
 }
 
 // EthTx builds the Ethereum transaction of the cpc route: sender -> precompile (direct) or sender -> contract
 // caller -> precompile.
-func (w *World) EthTx(c *chain.Chain, sender, caller string, ops []Op, gas uint64, price int64) []byte {
+func (w *World) EthTx(c *chain.Chain, sender, caller string, ops []Op, items []Item, gas uint64, price int64) []byte {
 	to := CPC
 	var data []byte
 	switch {
+	case caller == SeqCaller:
+		data = w.SeqCalldata(items)
+		to = w.Addr[caller]
 	case caller == "cT":
 		if len(ops) != 2 {
 			panic("cT makes two calls")
